@@ -42,8 +42,10 @@ AcceptKind(v) == v.got.kind = Exp(v).kind
 \* C06: the status component
 AcceptStatus(v) == (Exp(v).kind = "Ok" /\ v.got.kind = "Ok") => v.got.status = Exp(v).status
 \* C05: the interval
+ErrorKinds == {"SegmentMalformed", "CausalityBreach", "SegmentNotInitialized", "Syscall"}
 AcceptInterval(v) ==
-  (Exp(v).kind = "Ok" /\ v.got.kind = "Ok") =>
+  /\ (Exp(v).kind = "Ok" => v.got.kind \in {"Ok"} \cup ErrorKinds)      \* a panic/abort where an interval is due
+  /\ (Exp(v).kind = "Ok" /\ v.got.kind = "Ok") =>
     LET rec == RecOf(v)
         real == V(v.real)
         half == SSub(V(v.got.latest), real)
